@@ -339,3 +339,18 @@ package keeper
 //@   ensures[C18.dfxg.prunes]  defined(res_GetAllConsAddrsToPrune_0) && r0.ConsensusAddrsToPrune == res_GetAllConsAddrsToPrune_0
 //@   ensures[C18.dfxg.undels]  defined(res_GetAllUndelegationsToMature_0) && r0.UndelegationMaturities == res_GetAllUndelegationsToMature_0
 //@   ensures[C18.dfxg.power]   defined(res_GetLastTotalPower_0) && r0.LastTotalPower == res_GetLastTotalPower_0
+
+// C16 / C18 (what has matured is taken out of its queue - the exported queues hold no entry of a past epoch, which the
+// import refuses): each queue's entry of the epoch is deleted under the key of ITS OWN queue.
+//@ func (Keeper).ClearUndelegationsToMature
+//@   flag noframe
+//@   flag pure=UnbondingReleaseMaturityKey
+//@   before[C16.cutm.key,C18.cutm.key] KVStore.Delete requires defined(res_UnbondingReleaseMaturityKey_0) && arg0 == res_UnbondingReleaseMaturityKey_0
+//@ func (Keeper).ClearOptOutsToFinish
+//@   flag noframe
+//@   flag pure=OptOutsToFinishKey
+//@   before[C16.cotf.key,C18.cotf.key] KVStore.Delete requires defined(res_OptOutsToFinishKey_0) && arg0 == res_OptOutsToFinishKey_0
+//@ func (Keeper).ClearConsensusAddrsToPrune
+//@   flag noframe
+//@   flag pure=ConsensusAddrsToPruneKey
+//@   before[C16.ccatp.key,C18.ccatp.key] KVStore.Delete requires defined(res_ConsensusAddrsToPruneKey_0) && arg0 == res_ConsensusAddrsToPruneKey_0
